@@ -293,8 +293,37 @@ impl SeriesFam {
         // (3e-12 for the unit-scale alphabets, 1e-3 for the 2^30 level family)
         let hmax = self.alpha.iter().flatten().fold(0.0f64, |m, v| m.max(v.abs()));
         set_abs_tol(1e-12 * hmax);
-        self.check_word_inner(word, &x, ctx);
+        if self.name.ends_with("-nan-kinds") {
+            // every NaN is the same null (DESIGN 5.4): float-encoded nulls written as the run-time NaN of
+            // x86-64 (sign bit set) and as both kinds mixed; only words that contain a null
+            if x.iter().any(|v| v.is_none()) {
+                for kind in [1u8, 3] {
+                    with_nan_kind(kind, || self.check_word_inner(word, &x, ctx));
+                }
+            }
+        } else {
+            self.check_word_inner(word, &x, ctx);
+        }
         set_abs_tol(0.0);
+    }
+    /// the same family with the float-encoded input types only, under the name `<name>-nan-kinds`
+    pub fn nan_kinds(&self, max_len: usize) -> SeriesFam {
+        SeriesFam {
+            name: format!("{}-nan-kinds", self.name),
+            alpha: self.alpha.clone(),
+            max_len,
+            plain: self.plain,
+            fns: self.fns.clone(),
+            tys: self.tys.iter().filter(|t| t.name.starts_with("f64->") || t.name.starts_with("f32->")).cloned().collect(),
+            paths: vec![Path::Ret],
+            law: self.law,
+            w_lo: self.w_lo,
+            w_extra: self.w_extra,
+            min_len: self.min_len,
+            scales: vec![],
+            cfg_ok: self.cfg_ok,
+            classify: self.classify,
+        }
     }
     fn check_word_inner(&self, word: &[u8], x: &[X], ctx: &mut Ctx) {
         let x = x.to_vec();
@@ -484,6 +513,34 @@ impl PairFam {
         let b = word.iter().map(|s| self.alpha[*s as usize % k]).collect();
         (a, b)
     }
+    pub fn check_word(&self, word: &[u8], ctx: &mut Ctx) {
+        let (a, b) = self.split(word);
+        if self.name.ends_with("-nan-kinds") {
+            if a.iter().chain(b.iter()).any(|v| v.is_none()) {
+                for kind in [1u8, 3] {
+                    with_nan_kind(kind, || self.check_pair(word, &a, &b, ctx));
+                }
+            }
+        } else {
+            self.check_pair(word, &a, &b, ctx)
+        }
+    }
+    /// the same family with the float-encoded input types only, under the name `<name>-nan-kinds`
+    pub fn nan_kinds(&self, max_len: usize) -> PairFam {
+        PairFam {
+            name: format!("{}-nan-kinds", self.name),
+            alpha: self.alpha.clone(),
+            max_len,
+            fns: self.fns.clone(),
+            tys: self.tys.iter().filter(|t| !t.name.contains("Option<") || t.name.starts_with("f64x") || t.name.starts_with("f32x")).cloned().collect(),
+            paths: vec![Path::Ret],
+            law: self.law,
+            w_lo: self.w_lo,
+            w_extra: self.w_extra,
+            scales: vec![],
+            classify: self.classify,
+        }
+    }
     pub fn check_pair(&self, word: &[u8], a: &[X], b: &[X], ctx: &mut Ctx) {
         let len = a.len();
         ctx.fam(&self.name).states += 1;
@@ -558,8 +615,7 @@ impl TreeSys for PairFam {
         self.max_len
     }
     fn visit(&self, word: &[u8], _p: Option<&()>, ctx: &mut Ctx) {
-        let (a, b) = self.split(word);
-        self.check_pair(word, &a, &b, ctx)
+        self.check_word(word, ctx)
     }
     fn name(&self) -> String {
         self.name.clone()
@@ -826,6 +882,75 @@ pub fn check_structured_pairs(fam: &PairFam, thorough: bool, ctx: &mut Ctx) {
                             }
                         }
                     }
+                }
+            }
+        }
+    }
+}
+
+/// Value law on every input back end (seed round 6: a fast path of one back end may break the value of a
+/// statistic only there). Short words; the single-series entry points `fns` under `law`, the two-series ones
+/// `fns2` (first series in the container, second a plain Vec) under `Law::Value`; returned and caller-buffer path.
+pub fn check_backends_value(name: &str, fns: &[R1], fns2: &[R2], law: Law, word: &[u8], alpha: &[X], cfg_ok: fn(R1, usize, usize, Option<usize>) -> bool, ctx: &mut Ctx) {
+    use mc_adapt::backends::{for_backends, for_backends_opt};
+    let x = decode(word, alpha);
+    let len = x.len();
+    ctx.fam(name).states += 1;
+    if x.iter().any(|v| v.is_some()) {
+        ctx.nontrivial(name, hash_bytes(word));
+    }
+    let second: Vec<X> = x.iter().enumerate().map(|(i, v)| if i % 3 == 2 { None } else { Some(v.map_or(1.0, |a| a * 2.0 + 1.0) + (i % 2) as f64) }).collect();
+    for (w, mp) in wmp_band(len, 1, 2) {
+        for &f in fns {
+            if matches!(f, R1::Fdiff(_)) || !cfg_ok(f, len, w, mp) {
+                continue;
+            }
+            let model = model_for1(f, &x, w, mp, false);
+            let entry = r1_name(f, true);
+            for path in [Path::Ret, Path::Buf] {
+                let mut outs = vec![];
+                let mut vis = Roll1Visitor { f, w, mp, path, out: vec![] };
+                for_backends::<f64, _>(&x, 1, &mut vis);
+                outs.extend(vis.out.drain(..).map(|(n, o)| (format!("f64 {n}"), o)));
+                for_backends_opt(&x, 1, &mut vis);
+                outs.extend(vis.out.drain(..).map(|(n, o)| (format!("Option<f64> {n}"), o)));
+                for (bname, got) in outs {
+                    ctx.eval(name, outcome_hash(&got));
+                    ctx.transitions += 1;
+                    if let Some((pos, exp, g)) = judge(&got, &model, law, cmp_for(f), OutKind::F64) {
+                        ctx.violation(Violation {
+                            entry: entry.clone(),
+                            finding: None,
+                            size: len * 100 + w,
+                            case: json!({"family": name, "word": word, "series": json_word(&x), "w": w, "mp": mp_json(mp), "backend": bname, "path": format!("{path:?}"), "pos": pos}),
+                            expected: format!("{exp} (model series {})", show_exps(&model)),
+                            got: format!("{g} (output {})", show_outcome(&got)),
+                        });
+                    }
+                }
+            }
+        }
+        for &f in fns2 {
+            if matches!(f, R2::All(_)) {
+                continue;
+            }
+            let model = model_for2(f, &x, &second, w, mp);
+            let entry = r2_name(f);
+            let mut vis = Roll2Visitor { f, second: &second, w, mp, out: vec![] };
+            for_backends::<f64, _>(&x, 0, &mut vis);
+            for_backends_opt(&x, 0, &mut vis);
+            for (bname, got) in vis.out.drain(..) {
+                ctx.eval(name, outcome_hash(&got));
+                ctx.transitions += 1;
+                if let Some((pos, exp, g)) = judge(&got, &model, Law::Value, Cmp::Tol, OutKind::F64) {
+                    ctx.violation(Violation {
+                        entry: entry.clone(),
+                        finding: None,
+                        size: len * 100 + w,
+                        case: json!({"family": name, "word": word, "first": json_word(&x), "second": json_word(&second), "w": w, "mp": mp_json(mp), "backend": bname, "pos": pos}),
+                        expected: format!("{exp} (model series {})", show_exps(&model)),
+                        got: format!("{g} (output {})", show_outcome(&got)),
+                    });
                 }
             }
         }
